@@ -5,7 +5,7 @@
 //! call index (E-DEV, d=1 quick / d=2 thorough). Monitors: panic (caught), hang (watchdog +
 //! asset-call budget), largest single allocation request (counting global allocator), and the
 //! emulator must keep running afterwards. VTX files are also offered through readers that return
-//! short reads.
+//! short reads; host assets report the end of data as Ok(0) or Err(UnexpectedEof), rotating.
 
 use crate::formats::*;
 use crate::rig::{self, Emu, Fault, Opts, RegsView, VAsset, VDebug, VRomSet};
@@ -79,6 +79,8 @@ fn asset(c: &CaseSpec) -> VAsset {
     a.faults = c.faults.clone();
     a.seek_fault_at = c.seek_fault;
     a.chunk = c.chunk;
+    // both legal ways of reporting the end of data, rotating with the case
+    a.eof_zero = (c.bytes.len() + c.label.len()) % 2 == 1;
     a.call_cap = 64 * c.bytes.len() + 4096;
     a
 }
@@ -128,7 +130,8 @@ pub fn execute_q(c: &CaseSpec, quick: bool) -> (Outcome, usize, usize) {
                 let mut p0 = VAsset::new(b[..split].to_vec());
                 p0.faults = c.faults.clone();
                 p0.chunk = c.chunk;
-                let p1 = VAsset::new(b[split..].to_vec());
+                p0.eof_zero = (b.len() + c.label.len()) % 2 == 1;
+                let p1 = VAsset::new(b[split..].to_vec()).eof_as_zero((b.len() + c.label.len()) % 2 == 1);
                 let mut pages = std::collections::VecDeque::new();
                 if !b.is_empty() || c.label.contains("empty-set") {
                     pages.push_back(p0);
